@@ -249,4 +249,50 @@ Section Fn.
          | IOutOfFuel => INoFuel
          | IDone s => if derive (i_sets s) then IInferred else INotInferred
          end.
+
+  (* ---- the validated part: what the soundness theorem (proofs/InferSound.v) asks of a final state ---- *)
+
+  (* values whose nilness nilnessOf reads off the value itself or off the table, without following operands *)
+  Definition plain_kind (k : ivkind) : bool :=
+    match k with
+    | IVParam | IVNil | IVConstUnk | IVNonNil | IVPhi _ | IVOther => true
+    | IVAppendN _ lit => lit
+    | _ => false
+    end.
+  Definition plain : bool := forallb plain_kind (if_vals F).
+
+  (* shape of the function the semantics relies on: the two successors of a nil comparison are different blocks, and
+     the contracted parameter is not (re)defined by any instruction *)
+  Definition wf_blk (b : iblk) : bool :=
+    (match ib_if b with Some _ => negb (Nat.eqb (nth 0 (ib_succs b) 0) (nth 1 (ib_succs b) 0)) | None => true end)
+    && negb (existsb (Nat.eqb (if_param F)) (ib_phis b ++ ib_defs b)).
+  Definition wf_fn : bool := forallb wf_blk (if_blocks F).
+
+  Definition covered (s : ist) (b : nat) (t : table) : bool :=
+    match set_of s b with [] => true | l => existsb (table_eqb t) l end.
+  Definition stable_edge (s : ist) (p b idx : nat) : bool :=
+    forallb (fun t => match learn b p t with None => true | Some l => covered s b (enter b idx (add_all t l)) end)
+            (tables_or_top (i_sets s) p).
+  Fixpoint forallb_idx {A} (f : nat -> A -> bool) (i : nat) (l : list A) : bool :=
+    match l with [] => true | x :: r => f i x && forallb_idx f (S i) r end.
+  (* a post-fixpoint: the entry block is seen and has no tables; every table of a seen block, pushed over any edge
+     it can take, lands on a table the successor (seen as well) already has *)
+  Definition stable (s : ist) : bool :=
+    is_seen s 0 && (match set_of s 0 with [] => true | _ => false end) &&
+    forallb (fun p =>
+      forallb (fun b => is_seen s b &&
+        forallb_idx (fun idx q => if Nat.eqb q p then stable_edge s p b idx else true) 0 (ib_preds (block b)))
+        (ib_succs (block p))) (i_seen s).
+
+  (* inferContracts with the validation: true only when the final state passed `stable` *)
+  Definition infer_checked (fuel : nat) : bool :=
+    plain && wf_fn &&
+    (if derive [] then true
+     else match loop fuel {| i_sets := []; i_seen := [] |} [0] with
+          | IDone s => stable s && derive (i_sets s)
+          | _ => false
+          end).
+  (* the final state is stable (whatever the function) : reported by the correspondence suite *)
+  Definition final_stable (fuel : nat) : bool :=
+    match loop fuel {| i_sets := []; i_seen := [] |} [0] with IDone s => stable s | _ => true end.
 End Fn.
